@@ -156,10 +156,12 @@ func runCfg(rep *rt.Report, c cfg, deadline time.Time, classify func(w *World, l
 				case 'U', 'X':
 					pending = true
 				case 'C':
+					if pending {
+						since++ // a commit with nothing pending does not count as the commit after the checkpoint
+						gcAfter = 0
+					}
 					pending = false
 					commits++
-					since++
-					gcAfter = 0
 				case 'G':
 					gcAfter++
 				case 'P':
